@@ -237,6 +237,10 @@ func (w *simWorld) fsmNegoOp(st *vsFsmModel, op *Op) {
 		if !n.Families["ipv4-unicast"] && found {
 			w.violate("C08", "families", "ipv4-unicast", "route of a family that was not negotiated was advertised")
 		}
+		// families: a route of a configured family is advertised iff the peer announced that family
+		if hasString(cfg.Families, "ipv6-unicast") {
+			w.negoFamilyProbe(st, n)
+		}
 		w.probe("nego_checked")
 		// remove the probe route again so that the next session starts from an empty table
 		if err := w.s.DeletePath(apiutil.DeletePathRequest{Paths: []*apiutil.Path{{Family: bgp.RF_IPv4_UC, Nlri: nl, Attrs: attrs}}}); err != nil {
@@ -341,3 +345,40 @@ func (w *simWorld) adjInHas(addr, prefix string, pathID int) bool {
 }
 
 var _ = context.Background
+
+// negoFamilyProbe injects an IPv6 route and checks that it is advertised exactly when ipv6-unicast
+// was announced by both sides.
+func (w *simWorld) negoFamilyProbe(st *vsFsmModel, n negotiated) {
+	pfx := "2001:db8:77::/48"
+	nl, _ := bgp.NewIPAddrPrefix(netip.MustParsePrefix(pfx))
+	mp, _ := bgp.NewPathAttributeMpReachNLRI(bgp.RF_IPv6_UC, []bgp.PathNLRI{{NLRI: nl}}, netip.MustParseAddr("2001:db8::1"))
+	attrs := []bgp.PathAttributeInterface{bgp.NewPathAttributeOrigin(0), mp}
+	if _, err := w.s.AddPath(apiutil.AddPathRequest{Paths: []*apiutil.Path{{Family: bgp.RF_IPv6_UC, Nlri: nl, Attrs: attrs, Age: time.Now().Unix()}}}); err != nil {
+		w.harnessError("nego AddPath v6: %v", err)
+		return
+	}
+	fsmSettle()
+	got, closed := st.observe()
+	found := false
+	for _, m := range got {
+		if m.Type == wUpdate && m.Upd != nil {
+			for _, x := range m.Upd.Reach {
+				if m.Upd.ReachFam == famV6 && x.Key == pfx {
+					found = true
+				}
+			}
+		}
+	}
+	want := n.Families["ipv6-unicast"]
+	if closed || st.sess.bad != "" {
+		w.violate("C08", "families", "ipv6-unicast", fmt.Sprintf("session lost / undecodable message after an IPv6 route was injected (negotiated=%v): %s", want, st.sess.bad))
+		return
+	}
+	if found != want {
+		w.violate("C08", "families", "ipv6-unicast", fmt.Sprintf("IPv6 route advertised=%v although ipv6-unicast announced by both sides=%v (peer multiprotocol capabilities: %v, peer ADD-PATH lists ipv6 without MP: %v)", found, want, st.peerOpen.Families, st.peerOpen.APExtra))
+	}
+	_ = w.s.DeletePath(apiutil.DeletePathRequest{Paths: []*apiutil.Path{{Family: bgp.RF_IPv6_UC, Nlri: nl, Attrs: attrs}}})
+	fsmSettle()
+	st.observe()
+	w.probe("family_probe")
+}
